@@ -6,4 +6,5 @@ CONSTANTS
   MaxConn = 3
 INVARIANT OneWorking
 INVARIANT Truthful
+INVARIANT NotificationsMatch
 CHECK_DEADLOCK FALSE
